@@ -1,2 +1,281 @@
-From EO Require Import Prelude.Py Model.Spec Model.ObjModel.
-Theorem C19_placeholder : True. Proof. exact I. Qed.
+(* C19 - An instance of any generated struct, packet or case-data class cannot be changed through its public
+   interface: assigning to any field or to byte_size raises AttributeError, and array fields are tuples that are
+   unaffected by later changes to the iterable they were built from. Serializing the same instance twice therefore
+   always yields identical bytes, for constructed and deserialized instances alike. *)
+From EO Require Import Prelude.Py Model.Writer Model.Spec Model.Ser Model.Deser Model.ObjModel Proofs.ObjModel.
+Set Default Timeout 60.
+Open Scope Z_scope.
+
+(* ---------------- assignments are rejected; the instance never changes ---------------- *)
+
+Theorem C19_set_rejected : forall E h o f x, pstep E h o (PSet f x) = (h, o, OAttrError).
+Proof. intros E h o f x. reflexivity. Qed.
+
+(* ... at any position of any history *)
+Theorem C19_set_rejected_in_history : forall E ops1 f x ops2 h o,
+  nth_error (snd (prun E h o (ops1 ++ PSet f x :: ops2))) (List.length ops1) = Some OAttrError.
+Proof. exact prun_set_rejected. Qed.
+
+Theorem C19_construct_frozen : forall body cls h args, args_typed body args -> frozen (construct body cls h args).
+Proof. exact construct_frozen. Qed.
+
+Theorem C19_deserialized_frozen : forall v, frozen (of_value v).
+Proof. exact of_value_frozen. Qed.
+
+(* stronger: no slot at all (even a shadowed one) is a cell, and the view is exactly the deserialized value *)
+Theorem C19_deserialized_frozenb : forall v, frozenb (of_value v) = true.
+Proof. exact of_value_frozenb. Qed.
+Theorem C19_deserialized_view : forall h c flds, view h (of_value (VObj c flds)) = VObj c flds.
+Proof. exact of_value_view. Qed.
+
+Theorem C19_instance_never_changes : forall E ops h o, let '(_, o', _) := prun E h o ops in o' = o.
+Proof.
+  intros E ops h o. pose proof (prun_inst E ops h o) as Hp.
+  destruct (prun E h o ops) as [[h' o'] outs]. exact Hp.
+Qed.
+
+(* ---------------- heap independence ---------------- *)
+
+(* C19_view_heap_independent AS STATED IS FALSE OF THE MODEL: `frozen` speaks about name lookup (assoc, first binding
+   wins) while `view` maps over ALL slots, so a shadowed duplicate slot that aliases a cell satisfies `frozen` but
+   makes the raw view depend on the heap.  Refuting input: *)
+Definition cx_o : inst := mkInst "S" [("a"%string, HImm VNone); ("a"%string, HCell 0)].
+Example C19_view_heap_independent_refuted :
+  frozen cx_o /\ view [VNone] cx_o <> view [VInt 1] cx_o.
+Proof.
+  split.
+  - intros n c. unfold cx_o. cbn [i_slots assoc]. destruct (String.eqb "a" n); discriminate.
+  - vm_compute. discriminate.
+Qed.
+
+(* strongest true variant under the same hypothesis: the two views agree on every field lookup, hence on everything
+   the serializer (of any class, in any entry mode) computes from them *)
+Theorem C19_view_heap_independent_lookups : forall h h' o, frozen o ->
+  (forall n, assoc (vfields h o) n = assoc (vfields h' o) n) /\
+  (view h o = VObj (i_cls o) (vfields h o) /\ view h' o = VObj (i_cls o) (vfields h' o)) /\
+  (forall E cls san, serialize E cls (view h o) san = serialize E cls (view h' o) san).
+Proof.
+  intros h h' o Hfr. split; [exact (frozen_fields_eq h h' o Hfr)|].
+  split; [split; reflexivity|]. intros E cls san. apply frozen_serialize_heap_independent. exact Hfr.
+Qed.
+
+(* the statement itself holds when slot names are distinct (always so in Python: keyword arguments / attributes
+   cannot repeat), and for the decidable all-slots form of frozen *)
+Theorem C19_view_heap_independent_nodup : forall h h' o, NoDup (map fst (i_slots o)) -> frozen o -> view h o = view h' o.
+Proof. intros h h' o Hnd Hfr. apply frozenb_view. apply frozen_nodup_frozenb; assumption. Qed.
+Theorem C19_view_heap_independent_frozenb : forall h h' o, frozenb o = true -> view h o = view h' o.
+Proof. exact frozenb_view. Qed.
+
+(* ---------------- the property ---------------- *)
+
+(* between any public operations and any caller-side mutations, every serialization of a frozen instance gives the
+   same result *)
+Theorem C19_snapshot : forall E ops h o, frozen o ->
+  let '(_, _, outs) := prun E h o ops in
+  forall r bs, In (OBytes r bs) outs ->
+    (r, bs) = (snd (serialize E (i_cls o) (view h o) false), wdata (fst (serialize E (i_cls o) (view h o) false))).
+Proof.
+  intros E ops h o Hfr. pose proof (prun_snapshot E o h Hfr ops h) as Hp.
+  destruct (prun E h o ops) as [[h' o'] outs]. exact Hp.
+Qed.
+
+(* stronger: ... and that result is the one computed under ANY heap whatsoever (e.g. the heap at construction time) *)
+Theorem C19_snapshot_any_heap : forall E ops h h0 o, frozen o ->
+  let '(_, _, outs) := prun E h o ops in
+  forall r bs, In (OBytes r bs) outs ->
+    (r, bs) = (snd (serialize E (i_cls o) (view h0 o) false), wdata (fst (serialize E (i_cls o) (view h0 o) false))).
+Proof.
+  intros E ops h h0 o Hfr. pose proof (prun_snapshot E o h0 Hfr ops h) as Hp.
+  destruct (prun E h o ops) as [[h' o'] outs]. exact Hp.
+Qed.
+
+Lemma C19_frozen_outs_agree : forall E ops h o, frozen o ->
+  let '(_, _, outs) := prun E h o ops in
+  forall r1 b1 r2 b2, In (OBytes r1 b1) outs -> In (OBytes r2 b2) outs -> (r1, b1) = (r2, b2).
+Proof.
+  intros E ops h o Hfr. pose proof (C19_snapshot E ops h o Hfr) as Hs.
+  destruct (prun E h o ops) as [[h' o'] outs]. intros r1 b1 r2 b2 H1 H2.
+  rewrite (Hs r1 b1 H1), (Hs r2 b2 H2). reflexivity.
+Qed.
+
+Corollary C19_constructed_snapshot : forall E body cls h args ops, args_typed body args ->
+  let o := construct body cls h args in
+  let '(_, _, outs) := prun E h o ops in
+  forall r1 b1 r2 b2, In (OBytes r1 b1) outs -> In (OBytes r2 b2) outs -> (r1, b1) = (r2, b2).
+Proof.
+  intros E body cls h args ops Hty o.
+  exact (C19_frozen_outs_agree E ops h o (construct_frozen body cls h args Hty)).
+Qed.
+
+(* stronger: the instance may be used under a heap h' unrelated to the one it was constructed in *)
+Corollary C19_constructed_snapshot_any_heap : forall E body cls h h' args ops, args_typed body args ->
+  let o := construct body cls h args in
+  let '(_, _, outs) := prun E h' o ops in
+  forall r1 b1 r2 b2, In (OBytes r1 b1) outs -> In (OBytes r2 b2) outs -> (r1, b1) = (r2, b2).
+Proof.
+  intros E body cls h h' args ops Hty o.
+  exact (C19_frozen_outs_agree E ops h' o (construct_frozen body cls h args Hty)).
+Qed.
+
+Corollary C19_deserialized_snapshot : forall E v h ops,
+  let '(_, _, outs) := prun E h (of_value v) ops in
+  forall r1 b1 r2 b2, In (OBytes r1 b1) outs -> In (OBytes r2 b2) outs -> (r1, b1) = (r2, b2).
+Proof. intros E v h ops. exact (C19_frozen_outs_agree E ops h (of_value v) (of_value_frozen v)). Qed.
+
+(* stronger: every serialization of a deserialized instance is the serialization of the deserialized value itself *)
+Corollary C19_deserialized_snapshot_value : forall E c flds h ops,
+  let '(_, _, outs) := prun E h (of_value (VObj c flds)) ops in
+  forall r bs, In (OBytes r bs) outs ->
+    (r, bs) = (snd (serialize E c (VObj c flds) false), wdata (fst (serialize E c (VObj c flds) false))).
+Proof.
+  intros E c flds h ops. pose proof (C19_snapshot E ops h (of_value (VObj c flds)) (of_value_frozen _)) as Hs.
+  rewrite of_value_view in Hs. exact Hs.
+Qed.
+
+(* ---------------- array fields are copies ---------------- *)
+
+(* C19_array_copy AS STATED IS FALSE OF THE MODEL, for the same reason: args_typed constrains only the FIRST binding
+   of each parameter name, so an argument list that repeats a name can smuggle a cell into a shadowed slot.
+   Refuting input (not expressible in Python: a keyword argument cannot be repeated): *)
+Definition cx_body : list einstr :=
+  [EArray (mkField (Some "xs"%string) (EInt TShort) LNone false false true None 0) false false (ACRemaining 2)].
+Definition cx_args : list (string * hval) :=
+  [("xs"%string, HCell 0); ("b"%string, HImm VNone); ("b"%string, HCell 0)].
+Example C19_array_copy_refuted :
+  assoc cx_args "xs" = Some (HCell 0) /\ is_array_field cx_body "xs" = true /\ args_typed cx_body cx_args /\
+  view (heap_set [VList []] 0 (VList [VInt 1])) (construct cx_body "S" [VList []] cx_args)
+    <> view [VList []] (construct cx_body "S" [VList []] cx_args).
+Proof.
+  split; [reflexivity|]. split; [reflexivity|]. split.
+  - intros n c. unfold cx_args. cbn [assoc]. destruct (String.eqb "xs" n) eqn:Hxs.
+    + apply String.eqb_eq in Hxs. subst n. intros _. reflexivity.
+    + destruct (String.eqb "b" n); discriminate.
+  - vm_compute. discriminate.
+Qed.
+
+(* strongest true variant under the same hypotheses: after the caller mutates the iterable, every field lookup on the
+   instance gives what it gave before, the array field still holds the content the iterable had at construction
+   time, and every serializer computes the same thing *)
+Theorem C19_array_copy_lookups : forall body cls h args n c content, assoc args n = Some (HCell c) -> is_array_field body n = true ->
+  args_typed body args ->
+  let o := construct body cls h args in
+  (forall m, assoc (vfields (heap_set h c content) o) m = assoc (vfields h o) m) /\
+  (forall h', assoc (vfields h' o) n = Some (nth c h VNone)) /\
+  assoc (i_slots o) n = Some (HImm (nth c h VNone)) /\
+  (forall E cls' san, serialize E cls' (view (heap_set h c content) o) san = serialize E cls' (view h o) san).
+Proof.
+  intros body cls h args n c content Ha Harr Hty o.
+  pose proof (construct_frozen body cls h args Hty) as Hfr. fold o in Hfr.
+  assert (Hslot : assoc (i_slots o) n = Some (HImm (nth c h VNone))).
+  { unfold o. rewrite construct_assoc, Ha. cbn [option_map]. unfold ctor_slot. rewrite Harr. reflexivity. }
+  split; [exact (frozen_fields_eq _ _ o Hfr)|]. split.
+  - intros h'. rewrite vfields_assoc, Hslot. reflexivity.
+  - split; [exact Hslot|]. intros E cls' san. apply frozen_serialize_heap_independent. exact Hfr.
+Qed.
+
+(* the statement itself holds when parameter names are distinct (always so in Python), for ANY later heap *)
+Theorem C19_array_copy_nodup : forall body cls h h' args, NoDup (map fst args) -> args_typed body args ->
+  view h' (construct body cls h args) = view h (construct body cls h args).
+Proof. intros body cls h h' args Hnd Hty. apply frozenb_view. apply construct_frozenb; assumption. Qed.
+
+(* ---------------- getters ---------------- *)
+
+(* getters never hand out a reference to a mutable cell of a frozen instance *)
+Theorem C19_get_immutable : forall E h o f, frozen o -> forall c, pstep E h o (PGet f) <> (h, o, OVal (Some (HCell c))).
+Proof.
+  intros E h o f Hfr c Heq. cbn [pstep] in Heq. apply (f_equal snd) in Heq. cbn [snd] in Heq.
+  injection Heq as Ha. exact (Hfr f c Ha).
+Qed.
+
+(* ... anywhere in a history *)
+Theorem C19_get_immutable_in_history : forall E ops h o c, frozen o -> ~ In (OVal (Some (HCell c))) (snd (prun E h o ops)).
+Proof. intros E ops h o c Hfr. exact (prun_get_immutable E o Hfr ops h c). Qed.
+
+Print Assumptions C19_set_rejected.
+Print Assumptions C19_set_rejected_in_history.
+Print Assumptions C19_construct_frozen.
+Print Assumptions C19_deserialized_frozen.
+Print Assumptions C19_deserialized_frozenb.
+Print Assumptions C19_deserialized_view.
+Print Assumptions C19_instance_never_changes.
+Print Assumptions C19_view_heap_independent_refuted.
+Print Assumptions C19_view_heap_independent_lookups.
+Print Assumptions C19_view_heap_independent_nodup.
+Print Assumptions C19_view_heap_independent_frozenb.
+Print Assumptions C19_snapshot.
+Print Assumptions C19_snapshot_any_heap.
+Print Assumptions C19_constructed_snapshot.
+Print Assumptions C19_constructed_snapshot_any_heap.
+Print Assumptions C19_deserialized_snapshot.
+Print Assumptions C19_deserialized_snapshot_value.
+Print Assumptions C19_array_copy_refuted.
+Print Assumptions C19_array_copy_lookups.
+Print Assumptions C19_array_copy_nodup.
+Print Assumptions C19_get_immutable.
+Print Assumptions C19_get_immutable_in_history.
+
+(* ---------------- examples ---------------- *)
+Section Examples.
+  Open Scope string_scope.
+  Definition ex_fld (n : string) (ty : etype) : fieldspec := mkField (Some n) ty LNone false false true None 0.
+  (* struct S { char c; short xs[]; blob data } *)
+  Definition ex_body : list einstr :=
+    [EField (ex_fld "c" (EInt TChar)); EArray (ex_fld "xs" (EInt TShort)) false false (ACRemaining 2); EField (ex_fld "data" EBlob)].
+  Definition ex_env : env := [mkSDef "S" ex_body].
+  (* the caller owns a list (cell 0) and a bytearray (cell 1) *)
+  Definition ex_heap : heap := [VList [VInt 1; VInt 300]; VBytes [7; 8]].
+  Definition ex_args : list (string * hval) := [("c", HImm (VInt 5)); ("xs", HCell 0); ("data", HImm (VBytes [9; 10]))].
+  Definition ex_o : inst := construct ex_body "S" ex_heap ex_args.
+
+  Example C19_ex_args_typed : args_typed ex_body ex_args.
+  Proof.
+    intros n c. unfold ex_args. cbn [assoc]. destruct (String.eqb "c" n); [discriminate|].
+    destruct (String.eqb "xs" n) eqn:Hxs.
+    - apply String.eqb_eq in Hxs. subst n. intros _. reflexivity.
+    - destruct (String.eqb "data" n); discriminate.
+  Qed.
+
+  (* the array slot is a tuple (an immutable copy), not the caller's list *)
+  Example C19_ex_slots :
+    i_slots ex_o = [("c", HImm (VInt 5)); ("xs", HImm (VList [VInt 1; VInt 300])); ("data", HImm (VBytes [9; 10]))].
+  Proof. vm_compute. reflexivity. Qed.
+  Example C19_ex_frozenb : frozenb ex_o = true.
+  Proof. vm_compute. reflexivity. Qed.
+
+  (* serialize; the caller appends to / overwrites its list; assignments are refused; serialize again: same bytes *)
+  Example C19_ex_snapshot :
+    snd (prun ex_env ex_heap ex_o
+           [PSerialize; PMutate 0 (VList [VInt 2; VInt 2; VInt 2]); PSet "xs" (HCell 0); PSet "byte_size" (HImm (VInt 0));
+            PGet "xs"; PSerialize])
+    = [OBytes (Ok tt) [6; 2; 254; 48; 2; 9; 10]; ONone; OAttrError; OAttrError;
+       OVal (Some (HImm (VList [VInt 1; VInt 300]))); OBytes (Ok tt) [6; 2; 254; 48; 2; 9; 10]].
+  Proof. vm_compute. reflexivity. Qed.
+
+  (* a fresh instance built from the mutated list does serialize differently: the copy, not luck, is what protects *)
+  Example C19_ex_new_instance_differs :
+    snd (prun ex_env ex_heap (construct ex_body "S" (heap_set ex_heap 0 (VList [VInt 2; VInt 2; VInt 2])) ex_args) [PSerialize])
+    = [OBytes (Ok tt) [6; 3; 254; 3; 254; 3; 254; 9; 10]].
+  Proof. vm_compute. reflexivity. Qed.
+
+  (* the annotation of non-array parameters matters: a bytearray passed for the NON-array blob parameter is stored
+     as is, args_typed fails, and two serializations of the same instance differ after the caller mutates it *)
+  Definition bad_args : list (string * hval) := [("c", HImm (VInt 5)); ("xs", HCell 0); ("data", HCell 1)].
+  Example C19_alias_necessary :
+    ~ args_typed ex_body bad_args /\
+    ~ frozen (construct ex_body "S" ex_heap bad_args) /\
+    snd (prun ex_env ex_heap (construct ex_body "S" ex_heap bad_args) [PSerialize; PMutate 1 (VBytes [99]); PSerialize])
+    = [OBytes (Ok tt) [6; 2; 254; 48; 2; 7; 8]; ONone; OBytes (Ok tt) [6; 2; 254; 48; 2; 99]].
+  Proof.
+    split; [|split].
+    - intros Hty. specialize (Hty "data" 1%nat eq_refl). vm_compute in Hty. discriminate.
+    - intros Hfr. apply (Hfr "data" 1%nat). vm_compute. reflexivity.
+    - vm_compute. reflexivity.
+  Qed.
+
+  (* a deserialized instance: whatever the heap does, it serializes to the same bytes *)
+  Example C19_ex_deserialized :
+    snd (prun ex_env ex_heap (of_value (VObj "S" [("c", VInt 5); ("xs", VList [VInt 1; VInt 300]); ("data", VBytes [9; 10])]))
+           [PSerialize; PMutate 0 VNone; PMutate 1 VNone; PSerialize])
+    = [OBytes (Ok tt) [6; 2; 254; 48; 2; 9; 10]; ONone; ONone; OBytes (Ok tt) [6; 2; 254; 48; 2; 9; 10]].
+  Proof. vm_compute. reflexivity. Qed.
+End Examples.
